@@ -110,6 +110,13 @@ var clientReturnTypes = [][]reflect.Type{
 	{uni.TIface}, {reflect.TypeOf("")}, {reflect.TypeOf(0), reflect.TypeOf("")}, {reflect.TypeOf([]string(nil))}, {reflect.TypeOf(uni.Plain{})}, {reflect.TypeOf(map[string]int(nil)), reflect.TypeOf((*uni.Plain)(nil)), reflect.TypeOf(0.0)}, {},
 }
 
+// IfaceKey is comparable as a type, but a value whose member holds a list or a map cannot be hashed.
+type IfaceKey struct {
+	X interface{} `hprose:"x"`
+}
+
+func init() { hio.RegisterName("IfaceKey", (*IfaceKey)(nil)) }
+
 // entries: name -> function decoding the input in one way
 type entry struct {
 	name string
@@ -126,6 +133,19 @@ var entries = []entry{
 		p := reflect.New(destTypes[v%len(destTypes)])
 		hio.Formatter{Simple: v/len(destTypes)%2 == 0}.UnmarshalFromReader(bytes.NewReader(data), p.Interface())
 	}, 2 * len(destTypes)},
+	// the decoder settings that change what an interface{} destination receives: struct values instead of pointers,
+	// big longs, float32/big reals, string-keyed maps, the interface-slice list type
+	{"settings", func(data []byte, v int) {
+		dests := []reflect.Type{uni.TIface, reflect.TypeOf(map[interface{}]interface{}(nil)), reflect.TypeOf([]interface{}(nil)), reflect.TypeOf(map[interface{}]string(nil)), reflect.TypeOf(map[string]interface{}(nil))}
+		p := reflect.New(dests[v%len(dests)])
+		dec := hio.NewDecoder(data).Simple(v/len(dests)%2 == 0)
+		k := v / (2 * len(dests))
+		dec.StructType = hio.StructType(k % 2)
+		dec.LongType = hio.LongType((k / 2) % 3)
+		dec.RealType = hio.RealType((k / 6) % 3)
+		dec.MapType = hio.MapType((k / 18) % 2)
+		dec.Decode(p.Interface())
+	}, 5 * 2 * 36},
 	{"service-handle", func(data []byte, v int) {
 		sc := core.NewServiceContext(rpcService)
 		rpcService.Handle(core.WithContext(context.Background(), sc), data)
@@ -181,6 +201,7 @@ var hproseCorpus = []string{
 	`c3"Rec"2{s1"v"s4"next"}o0{1o0{2n}}`, `c3"Rec"2{s1"v"s4"next"}o0{1r3;}`, `c4"Nope"2{s1"p"s1"q"}o0{12}`,
 	`c9"WithIface"3{s1"x"s1"l"s1"m"}o0{c5"Plain"3{s1"a"s1"b"s1"c"}o1{1ubd2;}a2{1r6;}m1{s1"k"r6;}}`,
 	`s8"中文中文中文中文"`, `a2{s4"中文中文"s3"😀a"}`, `s6"éééééé"`, `s12"aé中😀aé中😀aé"`, `m1{s4"中文中文"s4"😀😀"}`,
+	`m1{c8"IfaceKey"1{s1"x"}o0{a1{1}}s1"v"}`, `m2{c8"IfaceKey"1{s1"x"}o0{5}s1"v"o0{m1{1a{}}}s1"w"}`, `m1{c9"WithIface"3{s1"x"s1"l"s1"m"}o0{a1{1}nn}s1"v"}`, `m2{c9"WithIface"3{s1"x"s1"l"s1"m"}o0{5nn}s1"v"o0{m1{1a{}}nn}s1"w"}`, `m1{a2{12}s1"v"}`,
 	`m3{s1"a"7s1"b"s2"xy"s1"c"d1.5;}`, `a2{d1.5;d2.5;}`, `a2{a2{d0;d1;}d2;}`, `s3"1/3"`, `a3{s2"ab"s2"cd"r2;}`,
 }
 
@@ -229,7 +250,7 @@ var hostileNumbers = []string{"-1", "0", "1", "2147483647", "2147483648", "42949
 // mutations enumerates: every truncation, every single-byte deletion, substitutions and insertions from
 // the alphabet, and grammar-aware replacements of every number (counts, lengths, indices, values).
 func mutations(s string, full bool, entryName string) []string {
-	var out []string
+	out := []string{s} // the unchanged stream first: it runs in every variant in both tiers
 	b := []byte(s)
 	for k := 0; k < len(b); k++ {
 		out = append(out, string(b[:k]))
@@ -308,7 +329,7 @@ func TestWorker(t *testing.T) {
 		in := []byte(muts[i])
 		nv := e.n
 		vs := []int{i % nv, (i*7 + 3) % nv, (i*13 + 5) % nv}
-		if full {
+		if full || i == 0 {
 			vs = vs[:0]
 			for v := 0; v < nv; v++ {
 				vs = append(vs, v)
@@ -410,6 +431,9 @@ func variantName(e *entry, v int) string {
 	switch e.name {
 	case "unmarshal", "reader":
 		return fmt.Sprintf("%s simple=%v", destTypes[v%len(destTypes)], v/len(destTypes)%2 == 0)
+	case "settings":
+		k := v / 10
+		return fmt.Sprintf("dest#%d simple=%v struct=%d long=%d real=%d map=%d", v%5, v/5%2 == 0, k%2, (k/2)%3, (k/6)%3, (k/18)%2)
 	case "client-decode", "jsonrpc-client":
 		return fmt.Sprint(clientReturnTypes[v%len(clientReturnTypes)])
 	}
